@@ -1,0 +1,88 @@
+//go:build verif
+
+package actor
+
+import (
+	"sort"
+	"sync/atomic"
+
+	"github.com/kercylan98/vivid"
+)
+
+// Read-only accessors for the verification harness.
+
+type VerifContextState struct {
+	Path       string
+	State      int32 // 0 running, 1 killing, 2 killed
+	Zombie     bool
+	Restarting bool
+	Children   []string
+	Watchers   []string
+	Stash      []vivid.Envelop
+	Mailbox    vivid.Mailbox
+}
+
+func (c *Context) VerifState() VerifContextState {
+	st := VerifContextState{
+		Path:       c.ref.GetPath(),
+		State:      atomic.LoadInt32(&c.state),
+		Zombie:     c.zombie,
+		Restarting: c.restarting != nil,
+		Mailbox:    c.mailbox,
+		Stash:      append([]vivid.Envelop(nil), c.stash...),
+	}
+	for p := range c.children {
+		st.Children = append(st.Children, p)
+	}
+	for _, w := range c.watchers {
+		st.Watchers = append(st.Watchers, w.GetPath())
+	}
+	sort.Strings(st.Children)
+	sort.Strings(st.Watchers)
+	return st
+}
+
+// VerifRoot returns the root context (nil before Start).
+func (s *System) VerifRoot() *Context { return s.Context }
+
+// VerifLookup returns the context registered at path (nil if none or a future).
+func (s *System) VerifLookup(path string) *Context {
+	if v, ok := s.actorContexts.Load(path); ok {
+		if c, ok := v.(*Context); ok {
+			return c
+		}
+	}
+	return nil
+}
+
+// VerifRegistered lists the paths registered as actor contexts, and the number of futures.
+func (s *System) VerifRegistered() (paths []string, futures int) {
+	s.actorContexts.Range(func(k, v any) bool {
+		if _, ok := v.(*Context); ok {
+			paths = append(paths, k.(string))
+		} else {
+			futures++
+		}
+		return true
+	})
+	sort.Strings(paths)
+	return
+}
+
+// VerifFutureAgents returns the number of (agent path, future) registrations.
+func (s *System) VerifFutureAgents() int {
+	s.futureLock.Lock()
+	defer s.futureLock.Unlock()
+	n := 0
+	for _, m := range s.futureAgents {
+		n += len(m)
+	}
+	return n
+}
+
+// VerifStatus returns the Start/Stop status (0 ready, 1 start, 2 stop).
+func (s *System) VerifStatus() int32 {
+	s.statusLock.Lock()
+	defer s.statusLock.Unlock()
+	return s.status
+}
